@@ -629,8 +629,10 @@ def run_ambig_index(ctx: Ctx) -> RuleResult:
         if isinstance(v, ast.BinOp) and isinstance(v.op, ast.Add):
             return _is_list(v.left, f_) or _is_list(v.right, f_)
         if isinstance(v, ast.Name):
+            # a local that starts as a list (and is then extended / re-bound to a sum with itself) is a list
             defs_ = [a_ for a_ in f_.body_nodes() if isinstance(a_, ast.Assign) and len(a_.targets) == 1 and norm(a_.targets[0]) == v.id]
-            return bool(defs_) and all(_is_list(a_.value, f_) for a_ in defs_)
+            return any(isinstance(a_.value, (ast.List, ast.ListComp)) or (isinstance(a_.value, ast.Call) and norm(a_.value.func) in ('list', 'sorted'))
+                       for a_ in defs_) and v.id not in f_.positional_names()
         return False
     n_cb = 0
     for mname in ('_ambig', '__default__', '__default_token__'):
